@@ -628,7 +628,7 @@ macro_rules | `(tactic| pres_leaf) => `(tactic| with_reducible apply Pres.discar
 nor add an expert edge: var writes and reads, `clone` of an observer handle, `drop` of a var
 handle, (un)subscribe, fault arming, `set_max_height_allowed`, `is_stable`, stats -/
 def Action.isQuiet : Action → Bool
-  | .stabilise | .create _ | .observe _ | .disallow _ | .dropObs _ | .addDep .. => false
+  | .stabilise | .create _ | .observe _ | .disallow _ | .dropObs _ | .addDep .. | .dropAll => false
   | _ => true
 
 theorem Pres.stepAction_quiet (env : Env) (a : Action) (tokens : Array Nat)
